@@ -142,7 +142,8 @@ def s_root(S):
             y = np.copy(P.y)
             Q = copy.deepcopy(P)
             Q.cost(np.copy(r.x))
-            Q.sys.domain.MatrixArray_to_real(Q.totalCorr)
+            if Q.totalCorr.space.name == 'Fourier':
+                Q.sys.domain.MatrixArray_to_real(Q.totalCorr)
             S.case(np.array_equal(h, Q.totalCorr.data) and np.array_equal(c, Q.directCorr.data) and np.array_equal(y, Q.y),
                    'stored arrays == those of cost(result.x) [%s, rank %d]' % (m, P.sys.rank))
             S.case(np.array_equal(np.ravel(r.fun), np.ravel(y)) or np.allclose(np.ravel(r.fun), np.ravel(y), rtol=1e-12, atol=1e-14),
